@@ -193,6 +193,60 @@ def check_r08c(repo, rep, uni):
                'materialised' % (model.norm(it), limit),
                loc=mod.loc(it), construct=model.norm(it))
     rep.floor('finaliser iteration sources', n, 4)
+    # every element / key / value drawn from a level is converted
+    # recursively -- that recursion is what applies the limiter (and the
+    # plain-data conversion) at every depth
+    rec_names = {fi.name} | {p for p in params if p == 'rec'}
+
+    def wrapped(name_node):
+        p = getattr(name_node, '_parent', None)
+        return isinstance(p, ast.Call) and isinstance(
+            p.func, ast.Name) and p.func.id in rec_names and p.args and \
+            p.args[0] is name_node
+    for node in ast.walk(fi.node):
+        tgt = body = None
+        if isinstance(node, (ast.For, ast.AsyncFor)):
+            tgt, body = node.target, node.body
+        elif isinstance(node, (ast.GeneratorExp, ast.ListComp, ast.SetComp,
+                               ast.DictComp)):
+            tgt = node.generators[0].target
+            body = [node.elt] if not isinstance(node, ast.DictComp) else [
+                node.key, node.value]
+        if tgt is None:
+            continue
+        if not isinstance(node, (ast.For, ast.AsyncFor)):
+            # only comprehensions whose elements become the result level:
+            # a pure test such as any(pred(t) for t in ...) builds nothing
+            par = getattr(node, '_parent', None)
+            if isinstance(par, ast.Call) and isinstance(
+                    par.func, ast.Name) and par.func.id in (
+                        'any', 'all', 'sum', 'len', 'min', 'max'):
+                continue
+        names = [x.id for x in ast.walk(tgt) if isinstance(x, ast.Name)]
+        for nm in names:
+            uses = [x for b in body for x in ast.walk(b)
+                    if isinstance(x, ast.Name) and x.id == nm and
+                    isinstance(x.ctx, ast.Load)]
+            ok = bool(uses) and all(wrapped(u) for u in uses)
+            rep.ob('R08c', '%s/recursion[%s]' % (fi.key, nm), ok,
+                   'the finaliser uses `%s` (an element / key / value of '
+                   'the level being converted) without passing it through '
+                   'the recursive conversion: collections nested at that '
+                   'position are neither limited nor converted' % nm,
+                   loc=mod.loc(node), construct=model.norm(node).split(
+                       '\n')[0][:120])
+    for call in model.calls_in(fi.node):
+        if isinstance(call.func, ast.Name) and call.func.id not in \
+                rec_names and call.func.id != limit and call.args and \
+                isinstance(call.args[0], ast.Call) and isinstance(
+                    call.args[0].func, ast.Name) and \
+                call.args[0].func.id == limit:
+            rep.ob('R08c', '%s/recursion[direct-construction]' % fi.key,
+                   False,
+                   '%s builds the result level straight from the limiter '
+                   'output: its elements are not converted recursively' %
+                   model.norm(call), loc=mod.loc(call),
+                   construct=model.norm(call))
     # recursion passes the same limiter on
     for call in model.calls_in(fi.node):
         if isinstance(call.func, ast.Name) and call.func.id in (
